@@ -390,6 +390,8 @@ func (e *Environment) CreateOrSet(name string, val Object, create bool) Object {
 			if !Equals(old, val) {
 				return Error{Value: fmt.Sprintf("attempt to change constant %s from %s to %s", name, old.Inspect(), val.Inspect())}
 			}
+			// Equal is not identical ([1] and [1.0], two closures with the same text): keep the constant as it is.
+			return old
 		}
 	}
 	if IsExtraFunction(name) {
